@@ -26,6 +26,8 @@ Stmt   =
   ["block", name, [Stmt]]                <%block name="..">..</%block>
   ["nscall", ns, member, {k: literal}, [Stmt]]   <%ns:member k="literal">..</%ns:member>
   ["callerbody"]                         ${caller.body()}
+  ["kwitems", name]                      ${sorted(name.items())}
+  ["ctxget", name]                       ${context.get('name', '-')}
 `args` / `kwargs` are Python argument-list source made of literals only.
 """
 
@@ -115,6 +117,10 @@ def p_stmt(s):
         return "<%%%s:%s%s>%s</%%%s:%s>" % (s[1], s[2], attrs, p_stmts(s[4]), s[1], s[2])
     if k == "callerbody":
         return "${caller.body()}"
+    if k == "kwitems":
+        return "${sorted(%s.items())}" % s[1]
+    if k == "ctxget":
+        return "${context.get(%r, '-')}" % s[1]
     raise ValueError(s)
 
 
